@@ -25,4 +25,4 @@ def _nontrivial(c):
 
 
 mach.install(globals(), "C02", ("EvStep", "EvGot", "EvDone"), ("C02:",), PROFILES, n_quick=300, n_thorough=5000,
-             nontrivial=_nontrivial)
+             nontrivial=_nontrivial, level="proof")
